@@ -49,9 +49,9 @@ func drawC14(t *rapid.T) Case {
 	if !json.Valid(c.Doc) {
 		c.Doc = []byte(`{"a":[1,{"b":null}]}`)
 	}
-	// one case in forty: thousands of sibling containers (every nesting budget is 4096: a counter that is not
+	// one case in 150: thousands of sibling containers (every nesting budget is 4096: a counter that is not
 	// given back per container runs out on a flat document)
-	if rapid.IntRange(0, 39).Draw(t, "bulk") == 0 {
+	if rapid.IntRange(0, 149).Draw(t, "bulk") == 0 {
 		c.Doc = drawC14Bulk(t)
 	}
 	c.Opts = rapid.IntRange(0, 7).Draw(t, "opts")
